@@ -10,6 +10,7 @@ import (
 	"strings"
 	"sync"
 	"testing"
+	"time"
 
 	"verif/internal/h"
 
@@ -55,6 +56,7 @@ func c20Gen(t *rapid.T, r *h.Rec) c20Case {
 type c20Result struct {
 	Log      []string         `json:"log"`
 	Requests []c20RequestInfo `json:"requests"`
+	Hang     bool             `json:"hang,omitempty"` // requests still pending after c20HangAfter
 }
 
 type c20RequestInfo struct {
@@ -142,7 +144,17 @@ func TestC20Child(t *testing.T) {
 		}(g, reqs)
 	}
 	close(start)
-	wg.Wait()
+	// the stand-in tools are shell scripts of a few lines (milliseconds): requests still pending after
+	// c20HangAfter are blocked for good (a lock or a slot that is never released)
+	finished := make(chan struct{})
+	go func() { wg.Wait(); close(finished) }()
+	select {
+	case <-finished:
+	case <-time.After(c20HangAfter):
+		// (the pending goroutines may still write into res: only the flag is reported)
+		os.WriteFile(filepath.Join(dir, "result.json"), []byte(`{"hang":true}`), 0o644)
+		os.Exit(0)
+	}
 	for s, p := range files {
 		content, _ := os.ReadFile(p)
 		res.Requests[idx[s]].Content = string(content)
@@ -156,6 +168,8 @@ func TestC20Child(t *testing.T) {
 	out, _ := json.Marshal(res)
 	os.WriteFile(filepath.Join(dir, "result.json"), out, 0o644)
 }
+
+const c20HangAfter = 90 * time.Second
 
 func c20Check(c c20Case, r *h.Rec) error {
 	dir, err := os.MkdirTemp(scratch(), "c20-")
@@ -184,6 +198,9 @@ func c20Check(c c20Case, r *h.Rec) error {
 	}
 	var res c20Result
 	json.Unmarshal(rb, &res)
+	if res.Hang {
+		return h.Violf("format requests were still pending %s after they were issued (the stand-in tools return within milliseconds): a request blocks forever\n  schedule: %s", c20HangAfter, clip(desc(), 600))
+	}
 	probes := map[string]int{}
 	runs := map[string]int{}
 	for _, l := range res.Log {
